@@ -5,8 +5,9 @@ From Paloma Require Import Base.Sha256 Skyway.Claims.
 Import ListNotations.
 Open Scope N_scope.
 
-(** The generated tables pass every check of [tables_ok] (decided by computation on the tables
-    regenerated from the source). *)
+(** * 1. The generated tables *)
+
+(** The tables regenerated from the source pass every check of [tables_ok] (decided by computation). *)
 Lemma tables_ok_true : tables_ok = true.
 Proof. vm_compute. reflexivity. Qed.
 
@@ -23,11 +24,499 @@ Proof.
   exact (proj1 (forallb_forall _ _) T ct H).
 Qed.
 
+Lemma lengths_distinct_of : forall t t', In t G.claim_types -> In t' G.claim_types ->
+  List.length (format t) = List.length (format t') -> t = t'.
+Proof.
+  intros t t' H H' E. pose proof tables_ok_true as T. unfold tables_ok in T.
+  apply andb_true_iff in T as [T _]. apply andb_true_iff in T as [T _]. apply andb_true_iff in T as [_ T].
+  unfold lengths_distinct in T.
+  pose proof (proj1 (forallb_forall _ _) T t H) as T1. cbv beta in T1.
+  pose proof (proj1 (forallb_forall _ _) T1 t' H') as T2. cbv beta in T2.
+  rewrite E, Nat.eqb_refl in T2. simpl in T2. now apply String.eqb_eq.
+Qed.
+
+(** the components of [type_ok] *)
+Record type_facts (ct : string) : Prop := {
+  tf_safe : Forall (fun it => item_safe it = true) (format ct);
+  tf_kind : Forall (fun it => item_kind_ok ct it = true) (format ct);
+  tf_nonempty : format ct <> [];
+  tf_chain : kind_of ct (chain_field ct) = "str"%string;
+  tf_nonce : kind_of ct (nonce_field ct) = "num"%string;
+  tf_keylen : List.length (G.key_fields ct) = 2%nat;
+  tf_nonce_hashed : In (nonce_field ct) (hashed_fields ct);
+  tf_cover : forall f, In f (G.handler_fields ct) ->
+             In f (hashed_fields ct) \/ In f (G.key_fields ct) \/ In f excluded
+}.
+
+Lemma type_facts_of : forall ct, In ct G.claim_types -> type_facts ct.
+Proof.
+  intros ct H. pose proof (type_ok_of ct H) as T. unfold type_ok in T.
+  apply andb_true_iff in T as [T Hcov]. apply andb_true_iff in T as [T Hnh]. apply andb_true_iff in T as [T Hkl].
+  apply andb_true_iff in T as [T _]. apply andb_true_iff in T as [T Hn]. apply andb_true_iff in T as [T Hc].
+  apply andb_true_iff in T as [T Hne]. apply andb_true_iff in T as [Hs Hk].
+  constructor.
+  - apply Forall_forall. now apply forallb_forall.
+  - apply Forall_forall. now apply forallb_forall.
+  - intros E. rewrite E in Hne. discriminate.
+  - now apply String.eqb_eq.
+  - now apply String.eqb_eq.
+  - now apply Nat.eqb_eq.
+  - now apply mem_In.
+  - intros f Hf. rewrite forallb_forall in Hcov. specialize (Hcov f Hf).
+    apply orb_true_iff in Hcov as [Hcov | Hcov]; [apply orb_true_iff in Hcov as [Hcov | Hcov] |];
+      apply mem_In in Hcov; auto.
+Qed.
+
 Lemma hash_covers_effect_fields_lemma : forall ct, In ct G.claim_types ->
   incl (G.handler_fields ct) (hashed_fields ct ++ G.key_fields ct ++ excluded).
 Proof.
-  intros ct H f Hf. pose proof (type_ok_of ct H) as T. unfold type_ok in T.
-  apply andb_true_iff in T as [_ T]. rewrite forallb_forall in T. specialize (T f Hf).
-  apply orb_true_iff in T as [T | T]; [apply orb_true_iff in T as [T | T] |]; apply mem_In in T;
+  intros ct H f Hf. destruct (tf_cover ct (type_facts_of ct H) f Hf) as [X | [X | X]];
     rewrite !in_app_iff; auto.
 Qed.
+
+(** * 2. Decimal rendering is injective and produces digits only *)
+
+Definition dval (b : byte) : N := Byte.to_N b - 48.
+Definition valf (a : N) (l : text) : N := fold_left (fun a b => 10 * a + dval b) l a.
+
+Lemma digit_val : forall d, d < 10 -> dval (digit d) = d.
+Proof.
+  intros d H.
+  assert (d = 0 \/ d = 1 \/ d = 2 \/ d = 3 \/ d = 4 \/ d = 5 \/ d = 6 \/ d = 7 \/ d = 8 \/ d = 9) as C by lia.
+  repeat (destruct C as [C | C]; [subst; reflexivity |]). subst; reflexivity.
+Qed.
+
+Lemma digit_in : forall d, In (digit d) digits.
+Proof.
+  intros d. unfold digit. destruct (Nat.lt_ge_cases (N.to_nat d) (List.length digits)) as [L | L].
+  - now apply nth_In.
+  - rewrite nth_overflow by exact L. simpl. auto.
+Qed.
+
+Lemma dec_aux_app : forall f n acc, dec_aux f n acc = dec_aux f n [] ++ acc.
+Proof.
+  induction f as [|f IH]; intros n acc; simpl; [reflexivity|].
+  destruct (n <? 10); [reflexivity|].
+  rewrite (IH (n / 10) (digit (n mod 10) :: acc)), (IH (n / 10) [digit (n mod 10)]).
+  now rewrite <- app_assoc.
+Qed.
+
+Lemma valf_snoc : forall l a b, valf a (l ++ [b]) = 10 * valf a l + dval b.
+Proof. intros. unfold valf. now rewrite fold_left_app. Qed.
+
+Lemma val_dec_aux : forall f n, n < 2 ^ N.of_nat f -> valf 0 (dec_aux f n []) = n.
+Proof.
+  induction f as [|f IH]; intros n H.
+  - simpl in *. lia.
+  - cbn [dec_aux]. destruct (n <? 10) eqn:E.
+    + apply N.ltb_lt in E. unfold valf. simpl. rewrite digit_val by (apply N.mod_lt; lia).
+      rewrite N.mod_small by exact E. lia.
+    + apply N.ltb_ge in E. rewrite dec_aux_app, valf_snoc.
+      rewrite digit_val by (apply N.mod_lt; lia).
+      rewrite IH.
+      * pose proof (N.div_mod n 10). lia.
+      * rewrite Nat2N.inj_succ, N.pow_succ_r' in H. apply N.div_lt_upper_bound; lia.
+Qed.
+
+Lemma dec_fuel_ok : forall n, n < 2 ^ N.of_nat (S (N.to_nat (N.log2 n))).
+Proof.
+  intros n. rewrite Nat2N.inj_succ, N2Nat.id. destruct n as [|p].
+  - simpl. lia.
+  - apply N.log2_spec. lia.
+Qed.
+
+Lemma val_dec : forall n, valf 0 (dec n) = n.
+Proof. intros n. unfold dec. apply val_dec_aux, dec_fuel_ok. Qed.
+
+Lemma dec_inj : forall n m, dec n = dec m -> n = m.
+Proof. intros n m H. rewrite <- (val_dec n), <- (val_dec m). now rewrite H. Qed.
+
+Lemma dec_aux_digits : forall f n acc, Forall (fun b => In b digits) acc -> Forall (fun b => In b digits) (dec_aux f n acc).
+Proof.
+  induction f as [|f IH]; intros n acc H; simpl; [exact H|].
+  destruct (n <? 10).
+  - constructor; [apply digit_in | exact H].
+  - apply IH. constructor; [apply digit_in | exact H].
+Qed.
+
+Lemma dec_digits : forall n, Forall (fun b => In b digits) (dec n).
+Proof. intros. unfold dec. apply dec_aux_digits. constructor. Qed.
+
+Lemma dec_nonempty : forall n, exists b r, dec n = b :: r /\ In b digits.
+Proof.
+  intros n. pose proof (dec_digits n) as D. unfold dec in *. cbn [dec_aux] in *.
+  destruct (n <? 10).
+  - eexists _, _. split; [reflexivity | apply digit_in].
+  - rewrite dec_aux_app in *. destruct (dec_aux _ (n / 10) []) as [|b r] eqn:E; simpl in *.
+    + eexists _, _. split; [reflexivity | apply digit_in].
+    + eexists _, _. split; [reflexivity|]. now inversion D.
+Qed.
+
+(** * 3. Slash-free texts and the join *)
+
+Definition sf (x : text) : Prop := ~ In slash x.
+
+Lemma digits_no_slash : ~ In slash digits.
+Proof. simpl. intuition discriminate. Qed.
+
+Lemma digits_sf : forall l, Forall (fun b => In b digits) l -> sf l.
+Proof.
+  intros l H S. rewrite Forall_forall in H. apply digits_no_slash. now apply H.
+Qed.
+
+Lemma dec_sf : forall n, sf (dec n).
+Proof. intros. apply digits_sf, dec_digits. Qed.
+
+Lemma render_amt_sf : forall a, sf (render_amt a).
+Proof.
+  intros [z|]; unfold render_amt.
+  - destruct (z <? 0)%Z.
+    + intros [E | I]; [discriminate | now apply (dec_sf _ I)].
+    + apply dec_sf.
+  - unfold sf, nil_text. simpl. intuition discriminate.
+Qed.
+
+Lemma render_amt_inj : forall a b, render_amt a = render_amt b -> a = b.
+Proof.
+  intros [z|] [z'|] H; unfold render_amt in H; try reflexivity.
+  - destruct (z <? 0)%Z eqn:E, (z' <? 0)%Z eqn:E'.
+    + inversion H as [H1]. apply dec_inj in H1. f_equal. apply Z.ltb_lt in E, E'. lia.
+    + exfalso. destruct (dec_nonempty (Z.to_N z')) as [b [r [Eq I]]]. rewrite Eq in H. inversion H; subst.
+      simpl in I. intuition discriminate.
+    + exfalso. destruct (dec_nonempty (Z.to_N z)) as [b [r [Eq I]]]. rewrite Eq in H. inversion H; subst.
+      simpl in I. intuition discriminate.
+    + apply dec_inj in H. f_equal. apply Z.ltb_ge in E, E'. lia.
+  - exfalso. destruct (z <? 0)%Z.
+    + discriminate.
+    + destruct (dec_nonempty (Z.to_N z)) as [b [r [Eq I]]]. rewrite Eq in H. inversion H; subst.
+      simpl in I. intuition discriminate.
+  - exfalso. destruct (z' <? 0)%Z.
+    + discriminate.
+    + destruct (dec_nonempty (Z.to_N z')) as [b [r [Eq I]]]. rewrite Eq in H. inversion H; subst.
+      simpl in I. intuition discriminate.
+Qed.
+
+(** escaping: injective (left inverse [unesc]) and slash-free *)
+Fixpoint unesc (l : text) : text :=
+  match l with
+  | [] => []
+  | b :: r =>
+      if Byte.eqb b percent then
+        match r with
+        | _ :: c2 :: r' => (if Byte.eqb c2 x35 then percent else slash) :: unesc r'
+        | _ => []
+        end
+      else b :: unesc r
+  end.
+
+Lemma unesc_cons : forall b r, unesc (b :: r) =
+  if Byte.eqb b percent then
+    match r with
+    | _ :: c2 :: r' => (if Byte.eqb c2 x35 then percent else slash) :: unesc r'
+    | _ => []
+    end
+  else b :: unesc r.
+Proof. reflexivity. Qed.
+
+Lemma unesc_esc : forall s, unesc (esc s) = s.
+Proof.
+  induction s as [|b s IH]; [reflexivity|].
+  change (esc (b :: s)) with (esc1 b ++ esc s). unfold esc1.
+  destruct (Byte.eqb b percent) eqn:E1.
+  - apply byte_dec_bl in E1. subst b.
+    change ([x25; x32; x35] ++ esc s) with (x25 :: x32 :: x35 :: esc s).
+    rewrite unesc_cons. change (Byte.eqb x25 percent) with true. cbv iota.
+    change (Byte.eqb x35 x35) with true. cbv iota. now rewrite IH.
+  - destruct (Byte.eqb b slash) eqn:E2.
+    + apply byte_dec_bl in E2. subst b.
+      change ([x25; x32; x46] ++ esc s) with (x25 :: x32 :: x46 :: esc s).
+      rewrite unesc_cons. change (Byte.eqb x25 percent) with true. cbv iota.
+      change (Byte.eqb x46 x35) with false. cbv iota. now rewrite IH.
+    + change ([b] ++ esc s) with (b :: esc s). rewrite unesc_cons, E1. now rewrite IH.
+Qed.
+
+Lemma esc_inj : forall s t, esc s = esc t -> s = t.
+Proof. intros s t H. rewrite <- (unesc_esc s), <- (unesc_esc t). now rewrite H. Qed.
+
+Lemma esc_sf : forall s, sf (esc s).
+Proof.
+  induction s as [|b s IH]; [intros []|].
+  unfold esc in *. cbn [flat_map]. unfold sf. rewrite in_app_iff. intros [I | I]; [| now apply IH].
+  unfold esc1 in I. destruct (Byte.eqb b percent).
+  - simpl in I. intuition discriminate.
+  - destruct (Byte.eqb b slash) eqn:E2.
+    + simpl in I. intuition discriminate.
+    + apply eqb_false in E2. simpl in I. destruct I as [I | []]. now subst.
+Qed.
+
+(** splitting at the first separator *)
+Lemma split_sep : forall x y r r', sf x -> sf y -> x ++ slash :: r = y ++ slash :: r' -> x = y /\ r = r'.
+Proof.
+  induction x as [|a x IH]; intros y r r' Hx Hy E.
+  - destruct y as [|b y]; simpl in E.
+    + inversion E. auto.
+    + inversion E; subst. exfalso. apply Hy. now left.
+  - destruct y as [|b y]; simpl in E.
+    + inversion E; subst. exfalso. apply Hx. now left.
+    + inversion E; subst. destruct (IH y r r') as [E1 E2]; auto.
+      * intros I. apply Hx. now right.
+      * intros I. apply Hy. now right.
+      * subst. auto.
+Qed.
+
+Lemma join_cons : forall x r, r <> [] -> join (x :: r) = x ++ slash :: join r.
+Proof. intros x [|y r] H; [congruence | reflexivity]. Qed.
+
+Lemma join_inj : forall xs ys, Forall sf xs -> Forall sf ys -> xs <> [] -> ys <> [] ->
+  join xs = join ys -> xs = ys.
+Proof.
+  induction xs as [|x xs IH]; intros ys Hx Hy Nx Ny E; [congruence|].
+  destruct ys as [|y ys]; [congruence|].
+  inversion Hx as [|? ? Sx Hx']; inversion Hy as [|? ? Sy Hy']; subst.
+  destruct xs as [|x2 xs], ys as [|y2 ys].
+  - simpl in E. now subst.
+  - exfalso. rewrite (join_cons y (y2 :: ys)) in E by discriminate. change (join [x]) with x in E. subst x.
+    apply Sx. rewrite in_app_iff. right. now left.
+  - exfalso. rewrite (join_cons x (x2 :: xs)) in E by discriminate. change (join [y]) with y in E. subst y.
+    apply Sy. rewrite in_app_iff. right. now left.
+  - rewrite (join_cons x (x2 :: xs)), (join_cons y (y2 :: ys)) in E by discriminate.
+    apply split_sep in E as [E1 E2]; auto. subst. f_equal. apply IH; auto; discriminate.
+Qed.
+
+(** The unescaped join is ambiguous — why [raw] items are not accepted by [tables_ok]. *)
+Example raw_join_ambiguous :
+  join [bytes_of "a/b"; bytes_of "c"] = join [bytes_of "a"; bytes_of "b/c"].
+Proof. reflexivity. Qed.
+
+(** * 4. Path injectivity *)
+
+Lemma render_sf : forall c it, item_safe it = true -> sf (render c it).
+Proof.
+  intros c [f|f|f|f|] H; simpl in *; try discriminate.
+  - apply dec_sf.
+  - apply render_amt_sf.
+  - apply esc_sf.
+Qed.
+
+Lemma render_item_inj : forall c c' it, item_safe it = true -> render c it = render c' it -> item_val c it = item_val c' it.
+Proof.
+  intros c c' [f|f|f|f|] H E; simpl in *; try discriminate.
+  - now rewrite (dec_inj _ _ E).
+  - now rewrite (render_amt_inj _ _ E).
+  - now rewrite (esc_inj _ _ E).
+Qed.
+
+Lemma map_render_sf : forall c fmt, Forall (fun it => item_safe it = true) fmt -> Forall sf (map (render c) fmt).
+Proof.
+  intros c fmt H. induction H; simpl; constructor; auto using render_sf.
+Qed.
+
+Lemma map_render_inj : forall c c' fmt, Forall (fun it => item_safe it = true) fmt ->
+  map (render c) fmt = map (render c') fmt -> map (item_val c) fmt = map (item_val c') fmt.
+Proof.
+  intros c c' fmt H. induction H as [|it fmt S _ IH]; simpl; intros E; [reflexivity|].
+  inversion E. f_equal; auto using render_item_inj.
+Qed.
+
+Lemma claim_path_injective_lemma : forall c c',
+  In (c_type c) G.claim_types -> In (c_type c') G.claim_types ->
+  path c = path c' -> c_type c = c_type c' /\ hashed_vals c = hashed_vals c'.
+Proof.
+  intros c c' T T' E. unfold path in E.
+  pose proof (type_facts_of _ T) as F. pose proof (type_facts_of _ T') as F'.
+  apply join_inj in E.
+  - assert (c_type c = c_type c') as Et.
+    { apply lengths_distinct_of; auto. apply (f_equal (@List.length text)) in E. now rewrite !map_length in E. }
+    split; [exact Et|]. unfold hashed_vals. rewrite <- Et in *. apply map_render_inj; [apply (tf_safe _ F) | exact E].
+  - apply map_render_sf, (tf_safe _ F).
+  - apply map_render_sf, (tf_safe _ F').
+  - intros N. apply map_eq_nil in N. now apply (tf_nonempty _ F).
+  - intros N. apply map_eq_nil in N. now apply (tf_nonempty _ F').
+Qed.
+
+(** * 5. Same key, same effect *)
+
+Lemma app_inj_len : forall (A : Type) (a a' b b' : list A), List.length a = List.length a' -> a ++ b = a' ++ b' -> a = a' /\ b = b'.
+Proof.
+  induction a as [|x a IH]; intros [|x' a'] b b' L E; simpl in *; try discriminate; auto.
+  inversion E; subst. destruct (IH a' b b') as [E1 E2]; auto. now subst.
+Qed.
+
+Lemma att_key_inj : forall K c c', att_key K c = att_key K c' ->
+  chain_of c = chain_of c' /\ claim_hash c = claim_hash c'.
+Proof.
+  intros K c c' E. unfold att_key in E.
+  assert (List.length (chain_of c) = List.length (chain_of c')) as L.
+  { apply (f_equal (@List.length byte)) in E. rewrite !app_length in E. unfold claim_hash in E.
+    rewrite !sha256_length in E. unfold be64 in E. simpl in E. lia. }
+  apply app_inj_len in E as [E1 E]; [|exact L]. split; [exact E1|].
+  apply app_inv_head in E. apply app_inj_len in E as [_ E]; [exact E | reflexivity].
+Qed.
+
+Lemma map_eq_In : forall (A B : Type) (f g : A -> B) l x, map f l = map g l -> In x l -> f x = g x.
+Proof.
+  induction l as [|a l IH]; intros x E I; [destruct I|]. simpl in E. inversion E.
+  destruct I as [I | I]; [now subst | now apply IH].
+Qed.
+
+Lemma hashed_field_val : forall c c' f, In (c_type c) G.claim_types -> c_type c = c_type c' ->
+  hashed_vals c = hashed_vals c' -> In f (hashed_fields (c_type c)) -> field_val c f = field_val c' f.
+Proof.
+  intros c c' f T Et Ev I. pose proof (type_facts_of _ T) as F.
+  unfold hashed_fields in I. apply in_map_iff in I as [it [Ef Iit]].
+  unfold hashed_vals in Ev. rewrite <- Et in Ev.
+  pose proof (map_eq_In _ _ _ _ _ it Ev Iit) as V.
+  pose proof (proj1 (Forall_forall _ _) (tf_kind _ F) it Iit) as Kd.
+  unfold field_val. rewrite <- Et.
+  destruct it as [g|g|g|g|]; simpl in *; try discriminate; subst f; apply String.eqb_eq in Kd; rewrite Kd; simpl;
+    inversion V; congruence.
+Qed.
+
+Lemma same_key_same_effect_lemma : forall K c c',
+  In (c_type c) G.claim_types -> In (c_type c') G.claim_types ->
+  att_key K c = att_key K c' ->
+  effect c = effect c' \/ (path c <> path c' /\ sha256 (path c) = sha256 (path c')).
+Proof.
+  intros K c c' T T' E. apply att_key_inj in E as [Ec Eh]. unfold claim_hash in Eh.
+  destruct (list_eq_dec byte_eq_dec (path c) (path c')) as [Ep | Np]; [left | right; auto].
+  destruct (claim_path_injective_lemma c c' T T' Ep) as [Et Ev].
+  pose proof (type_facts_of _ T) as F.
+  unfold effect. rewrite <- Et. f_equal. apply map_ext_in. intros f If.
+  unfold effect_fields in If. apply filter_In in If as [If Nex].
+  destruct (tf_cover _ F f If) as [X | [X | X]].
+  - now apply hashed_field_val.
+  - pose proof (tf_keylen _ F) as L. destruct (G.key_fields (c_type c)) as [|k0 [|k1 [|k2 r]]] eqn:KF; simpl in L; try discriminate.
+    destruct X as [X | [X | []]]; subst f.
+    + (* the chain field *)
+      assert (chain_field (c_type c) = k0) as CF by (unfold chain_field; now rewrite KF).
+      unfold field_val. rewrite <- Et, <- CF, (tf_chain _ F). simpl.
+      unfold chain_of in Ec. rewrite <- Et in Ec. now rewrite Ec.
+    + (* the nonce field is hashed as well *)
+      assert (nonce_field (c_type c) = k1) as NF by (unfold nonce_field; now rewrite KF).
+      rewrite <- NF. apply hashed_field_val; auto. apply (tf_nonce_hashed _ F).
+  - exfalso. apply negb_true_iff in Nex. unfold mem in Nex.
+    assert (existsb (String.eqb f) excluded = true) as Y; [|congruence].
+    apply existsb_exists. exists f. split; [exact X | apply String.eqb_refl].
+Qed.
+
+(** * 6. Vote pooling over all histories *)
+
+Lemma text_eqb_eq : forall a b, text_eqb a b = true -> a = b.
+Proof.
+  unfold text_eqb. induction a as [|x a IH]; intros [|y b] H; try discriminate; [reflexivity|].
+  apply andb_true_iff in H as [H1 H2]. apply byte_dec_bl in H1. apply IH in H2. now subst.
+Qed.
+
+Definition inv (K : text) (done : list op) (s : state) : Prop :=
+  forall a, In a (atts s) ->
+    att_key K (a_body a) = a_key a /\
+    (exists v0, In (v0, a_body a) done) /\
+    forall v, In v (a_votes a) -> exists c, In (v, c) done /\ att_key K c = a_key a.
+
+Lemma inv_mono : forall K done more s, inv K done s -> inv K (done ++ more) s.
+Proof.
+  intros K done more s H a Ia. destruct (H a Ia) as [H1 [[v0 H2] H3]]. split; [exact H1|]. split.
+  - exists v0. apply in_or_app. now left.
+  - intros v Iv. destruct (H3 v Iv) as [c [I E]]. exists c. split; [apply in_or_app; now left | exact E].
+Qed.
+
+Lemma find_att_some : forall l k a, find_att l k = Some a -> In a l /\ a_key a = k.
+Proof.
+  induction l as [|x l IH]; intros k a H; simpl in H; [discriminate|].
+  destruct (text_eqb (a_key x) k) eqn:E.
+  - inversion H; subst. split; [now left | now apply text_eqb_eq].
+  - destruct (IH k a H). split; [now right | assumption].
+Qed.
+
+Lemma add_vote_in : forall l k v a', In a' (add_vote l k v) ->
+  In a' l \/ exists a, In a l /\ a_key a = k /\ a_key a' = a_key a /\ a_body a' = a_body a /\ a_votes a' = a_votes a ++ [v].
+Proof.
+  induction l as [|x l IH]; intros k v a' H; simpl in H; [destruct H|].
+  destruct (text_eqb (a_key x) k) eqn:E.
+  - destruct H as [H | H].
+    + right. exists x. subst a'. simpl. split; [now left|]. split; [now apply text_eqb_eq | auto].
+    + left. now right.
+  - destruct H as [H | H].
+    + left. now left.
+    + destruct (IH k v a' H) as [I | [a [I R]]].
+      * left. now right.
+      * right. exists a. split; [now right | exact R].
+Qed.
+
+Lemma attest_inv : forall K done s i v c, inv K done s -> inv K (done ++ [(v, c)]) (fst (attest K s i v c)).
+Proof.
+  intros K done s i v c H. unfold attest.
+  destruct (negb (nonce_of c =? last_of (lasts s) v (chain_of c) + 1)); [now apply inv_mono|].
+  destruct (find_att (atts s) (att_key K c)) as [a0|] eqn:Fd.
+  - destruct (height_of (a_body a0) =? height_of c); [|now apply inv_mono].
+    simpl. intros a' Ia'. apply add_vote_in in Ia' as [I | [a [I [Ek [E1 [E2 E3]]]]]].
+    + now apply (inv_mono K done [(v, c)] s H).
+    + destruct (H a I) as [H1 [[v0 H2] H3]]. rewrite E1, E2. split; [exact H1|]. split.
+      * exists v0. apply in_or_app. now left.
+      * intros w Iw. rewrite E3 in Iw. apply in_app_or in Iw as [Iw | [Iw | []]].
+        -- destruct (H3 w Iw) as [c0 [I0 E0]]. exists c0. split; [apply in_or_app; now left | exact E0].
+        -- subst w. exists c. split; [apply in_or_app; right; now left | now rewrite Ek].
+  - simpl. intros a' Ia'. apply in_app_or in Ia' as [I | [I | []]].
+    + now apply (inv_mono K done [(v, c)] s H).
+    + subst a'. simpl. split; [reflexivity|]. split.
+      * exists v. apply in_or_app. right. now left.
+      * intros w [Iw | []]. subst w. exists c. split; [apply in_or_app; right; now left | reflexivity].
+Qed.
+
+Lemma run_from_inv : forall K ops done s i, inv K done s -> inv K (done ++ ops) (run_from K s i ops).
+Proof.
+  induction ops as [|[v c] ops IH]; intros done s i H; simpl.
+  - now rewrite app_nil_r.
+  - pose proof (app_assoc done [(v, c)] ops) as E. simpl in E.
+    rewrite E. apply IH. now apply attest_inv.
+Qed.
+
+Lemma pooled_votes_same_effect_lemma : forall K ops,
+  (forall v c, In (v, c) ops -> In (c_type c) G.claim_types) ->
+  forall a, In a (atts (run K ops)) ->
+    (exists v0, In (v0, a_body a) ops) /\
+    forall v, In v (a_votes a) ->
+      exists c, In (v, c) ops /\
+        (effect c = effect (a_body a) \/ (path c <> path (a_body a) /\ sha256 (path c) = sha256 (path (a_body a)))).
+Proof.
+  intros K ops Ty a Ia.
+  assert (inv K ([] ++ ops) (run K ops)) as I by (apply run_from_inv; intros x []).
+  simpl in I. destruct (I a Ia) as [H1 [[v0 H2] H3]]. split; [now exists v0|].
+  intros v Iv. destruct (H3 v Iv) as [c [Ic Ek]]. exists c. split; [exact Ic|].
+  apply (same_key_same_effect_lemma K); [now apply (Ty v) | now apply (Ty v0) | now rewrite Ek, H1].
+Qed.
+
+(** * 7. Non-vacuity *)
+
+Definition ex_deposit (recv compass : string) (v : N) : claim :=
+  {| c_type := "MsgSendToPalomaClaim";
+     c_num := fun f => if String.eqb f "SkywayNonce" then 1 else if String.eqb f "EthBlockHeight" then 100 else 7;
+     c_str := fun f => if String.eqb f "PalomaReceiver" then bytes_of recv
+                       else if String.eqb f "CompassId" then bytes_of compass
+                       else if String.eqb f "ChainReferenceId" then bytes_of "test-chain"
+                       else bytes_of "0xab";
+     c_amt := fun _ => Some 12%Z |}.
+
+(** the path of a concrete deposit claim, with a '/' and a '%' in the receiver *)
+Example path_example :
+  path (ex_deposit "a/b%" "55" 0) = bytes_of "1/100/0xab/12/0xab/a%2Fb%25/55".
+Proof. vm_compute. reflexivity. Qed.
+
+(** the former collision pair now renders two different paths *)
+Example shifted_boundary_paths_differ :
+  path (ex_deposit "a/b" "c" 0) <> path (ex_deposit "a" "b/c" 0).
+Proof. vm_compute. discriminate. Qed.
+
+Example claim_types_nonempty : In "MsgLightNodeSaleClaim"%string G.claim_types /\ In "MsgSendToPalomaClaim"%string G.claim_types.
+Proof. split; vm_compute; tauto. Qed.
+
+Example sale_contract_is_effect_and_hashed :
+  In "SmartContractAddress"%string (effect_fields "MsgLightNodeSaleClaim") /\
+  In "SmartContractAddress"%string (hashed_fields "MsgLightNodeSaleClaim").
+Proof. split; vm_compute; tauto. Qed.
+
+(** three validators vote for the same body (they differ in orchestrator-independent fields only): one attestation, three votes *)
+Example pooling_example :
+  let ops := [(0, ex_deposit "r" "55" 0); (1, ex_deposit "r" "55" 1); (2, ex_deposit "r" "55" 2); (3, ex_deposit "r/" "55" 3)] in
+  map a_votes (atts (run [] ops)) = [[0; 1; 2]; [3]].
+Proof. vm_compute. reflexivity. Qed.
